@@ -383,6 +383,61 @@ def split_semantics(repo: Repo, rep: Report) -> None:
         rep.ok("SEG-S", f"{len(blocks)} connected blocks x all ordered pairs of distinct seeds = {total} splits: two non-empty connected parts each", points=total)
 
 
+def _conn_job(args) -> Tuple[str, Optional[str], int]:
+    root, overrides, fname, blocks = args
+    repo = Repo(root, overrides)
+    cw = ClassWorld([repo.mod(BUILDER), repo.mod(SEG)])
+    cw.ev.max_steps = 3_000_000
+    cw.ev.max_loop = 5000
+    n = 0
+    try:
+        for block in blocks:
+            for order in (list(block), list(reversed(block))):
+                for excluded in order:
+                    rest = [c for c in order if c != excluded]
+                    if not rest:
+                        continue
+                    cw.ev.steps = 0
+                    n += 1
+                    got = cw.call(fname, list(order), excluded)
+                    want = connected(rest)
+                    if got is not want:
+                        return "bad", (f"{fname}({order}, {excluded}) returns {got!r}: the block without that cell is "
+                                       f"{'' if want else 'not '}orthogonally connected"), n
+    except Undecided as ex:
+        return "undecided", str(ex), n
+    except Raised as ex:
+        return "bad", f"{fname} raises {ex.what}", n
+    except IndexOutOfRange as ex:
+        return "bad", f"{fname} raises IndexError ({ex})", n
+    return "ok", None, n
+
+
+def connectivity_semantics(repo: Repo, rep: Report) -> None:
+    rep.rule("SEG-C", "the donor-connectivity test used by the move guards: for every connected block inside a 3x3 board (and 2x4, 1x4) and every "
+                      "cell of it, in both listing orders, it answers exactly whether the block without that cell is orthogonally connected")
+    mod = repo.mod(SEG)
+    cands = [q for q, fn in mod.funcs.items() if "." not in q and "connect" in q and len(fn.args.args) == 2]
+    fname = "_is_connected" if "_is_connected" in cands else (cands[0] if len(cands) == 1 else None)
+    if fname is None:
+        rep.undecide("SEG-C", f"the connectivity helper of {SEG} was not identified (candidates: {cands})")
+        return
+    rep.saw(SEG, fname)
+    blocks = _connected_subsets(3, 3, 9) + _connected_subsets(2, 4, 8) + _connected_subsets(1, 4, 4)
+    chunks = [blocks[i::16] for i in range(16)]
+    with ProcessPoolExecutor(max_workers=16) as ex:
+        results = list(ex.map(_conn_job, [(repo.root, repo.overrides, fname, ch) for ch in chunks if ch]))
+    bad = [r for r in results if r[0] == "bad"]
+    und = [r for r in results if r[0] == "undecided"]
+    total = sum(r[2] for r in results)
+    if bad:
+        rep.finding("SEG-C", SEG, fname, "connectivity of a block without one cell", bad[0][1] or "")
+    elif und:
+        rep.undecide("SEG-C", und[0][1] or "")
+    else:
+        rep.ok("SEG-C", f"{len(blocks)} connected blocks x every removed cell x two listing orders = {total} questions answered correctly", points=total)
+
+
 class _Hold:
     """SEG-G failures mean 'not entailed by the guards', not 'refuted': they are reported as violations only when SEG-E
     has a concrete history that breaks a bound; alone they leave the property undecided (exit 2)"""
@@ -407,6 +462,7 @@ def run(repo: Repo, rep: Report) -> None:
     guards_strict(repo, hold)  # type: ignore[arg-type]
     before = len(rep.findings)
     split_semantics(repo, rep)
+    connectivity_semantics(repo, rep)
     evaluation(repo, rep)
     witnessed = len(rep.findings) > before
     for h in hold.held:
